@@ -126,7 +126,7 @@ type specRun struct {
 func (x *specRun) tag(t string) { x.tags[t] = true }
 
 func (x *specRun) record(id int) {
-	x.events = append(x.events, event{id, paths[x.s.q.path], x.s.errStr()})
+	x.events = append(x.events, event{id: id, path: paths[x.s.q.path], err: x.s.errStr()})
 }
 
 func (x *specRun) handlers(hs []*handler) *stop {
@@ -273,7 +273,7 @@ type cres struct {
 func rec(ev []event, id int, s state) []event {
 	out := make([]event, len(ev), len(ev)+1)
 	copy(out, ev)
-	return append(out, event{id, paths[s.q.path], s.errStr()})
+	return append(out, event{id: id, path: paths[s.q.path], err: s.errStr()})
 }
 
 func cHandlers(hs []*handler, k kont) kont {
@@ -436,7 +436,7 @@ func sameEvents(a, b []event) bool {
 		return false
 	}
 	for i := range a {
-		if a[i] != b[i] {
+		if a[i].id != b[i].id || a[i].path != b[i].path || a[i].err != b[i].err {
 			return false
 		}
 	}
